@@ -1,6 +1,7 @@
 import Driver.Util
 import CRModel.Assign
 import CRModel.AssignGeo
+import CRModel.AssignNet
 open Lean CR.Drv CR.Assign
 
 namespace CR.Drv.C07
@@ -153,6 +154,35 @@ def geoHandle (a : Json) : P Json := do
   let E := CR.Assign.envOf (exactGeo tol tr D) n
   pure <| Json.arr (steps.map fun e => Json.arr #[intJ e.o, intJ e.t, setJ (E.cen e.o e.t), setJ (E.shp e.o e.t)]).toArray
 
+/-! ### op `nrun`: histories with a changing lanelet network and preset assignment attributes -/
+
+def dictOf (j : Json) : P Dict := do
+  match j with
+  | .obj kvs => kvs.toList.mapM fun (k, v) => do
+      match k.toInt? with
+      | some t => pure (t, ← listOf asInt v)
+      | none => throw s!"dict key {k}"
+  | _ => throw "dict: expected an object"
+
+def presetOf (j : Json) : P Fwd := do
+  pure { initCenter := ← optOf (listOf asInt) ((fieldOpt j "ic").getD .null),
+         initShape := ← optOf (listOf asInt) ((fieldOpt j "is").getD .null),
+         predCenter := ← optOf dictOf ((fieldOpt j "pc").getD .null),
+         predShape := ← optOf dictOf ((fieldOpt j "ps").getD .null) }
+
+def nopOf (j : Json) : P NOp := do
+  match ← asArr j with
+  | [.str "rmlane", l] => pure (.removeLanelet (← asInt l))
+  | [.str "addlane", l] => pure (.addLanelet (← asInt l))
+  | _ => pure (.op (← opOf j))
+
+def nrunOps (E : Env) (legacy : Bool) (show_ : NSt → Json) : NSt → List NOp → List Json
+  | _, [] => []
+  | n, op :: ops =>
+    match nstep E legacy n op with
+    | .ok n' => okJ (show_ n') :: nrunOps E legacy show_ n' ops
+    | .error e => [errJ e]
+
 def handle (op : String) (a : Json) : P Json := do
   match op with
   | "run" =>
@@ -163,6 +193,24 @@ def handle (op : String) (a : Json) : P Json := do
     let n ← getNat a "tspan"
     let E := envOf lanelets os
     pure <| Json.arr (runOps E (stateJ lanelets os tmin n) St.init ops).toArray
+  | "nrun" =>
+    let lanelets ← getList asInt a "lanelets"
+    let present0 ← getList asInt a "present0"
+    let osj ← asArr (← field a "obs")
+    let os ← osj.mapM obsOf
+    let presets ← osj.mapM fun j => do
+      pure (← getInt j "id", ← match fieldOpt j "preset" with | some p => presetOf p | none => pure ({} : Fwd))
+    let ops ← getList nopOf a "ops"
+    let legacy ← match fieldOpt a "legacy" with | some b => asBool b | none => pure false
+    let tmin ← getInt a "tmin"
+    let n ← getNat a "tspan"
+    let E := envOf lanelets os
+    let preset : Id → Fwd := fun o => ((presets.find? (fun e => e.1 = o)).map (·.2)).getD {}
+    let showN (x : NSt) : Json :=
+      match stateJ lanelets os tmin n x.st with
+      | .obj kvs => Json.obj (kvs.insert "present" (setJ x.present))
+      | j => j
+    pure <| Json.arr (nrunOps E legacy showN (NSt.init present0 preset) ops).toArray
   | "geo" => geoHandle a
   | _ => throw s!"C07: unknown op {op}"
 
